@@ -467,7 +467,8 @@ mod exec {
                     _ => false,
                 }
             }
-            if !s.chars().all(nice_char) {
+            // the empty string must be quoted too, or the shell drops the argument
+            if s.is_empty() || !s.chars().all(nice_char) {
                 Cow::Owned(format!("'{}'", s.replace("'", r#"'\''"#)))
             } else {
                 Cow::Borrowed(s)
